@@ -515,4 +515,25 @@ def evalCondE (lw : Nat) (r : Row) : CondE → Except ResErr Tern
     | .error e => .error e
     | .ok x => .ok x.tern
 
+/-! ## select list with computed items: every item is evaluated on the record, independently of the other items
+
+  (`View.Select` → `evalColumn` per item: a reference is looked up in the header, anything else is calculated
+  for every record and appended as a new column; `Fix` then picks the columns in item order.) -/
+
+inductive Item
+  | col (i : Nat)
+  | lit (p : Profile)
+  | cond (c : CondE)                 -- a condition used as a value: its ternary result
+  | case (c : CondE) (a b : Profile) -- CASE WHEN c THEN a ELSE b END
+  deriving Repr, Inhabited
+
+def evalItem (r : Row) : Item → Profile
+  | .col i => (r[i]?).getD nullP
+  | .lit p => p
+  | .cond c => ternP (evalCond 0 r c)
+  | .case c a b => match evalCond 0 r c with | .T => a | _ => b
+
+def selectRows (items : List Item) (rows : List Row) : List Row :=
+  rows.map (fun r => items.map (evalItem r))
+
 end Csvq.Rel
